@@ -8,9 +8,11 @@ package pruner
 
 import (
 	"context"
+	"sync/atomic"
 
 	"github.com/vechain/thor/v2/chain"
 	"github.com/vechain/thor/v2/muxdb"
+	"github.com/vechain/thor/v2/thor"
 )
 
 // VerifPruneTries runs exactly what one iteration of (*Pruner).loop runs between awaitUntilPrunable and
@@ -39,4 +41,37 @@ func VerifLoadBase(db *muxdb.MuxDB) (uint32, error) {
 func VerifSaveBase(db *muxdb.MuxDB, base uint32) error {
 	s := status{Base: base}
 	return s.Save(db.NewStore(propsStoreName))
+}
+
+// Scaled-down pruner loop: the REAL (*Pruner).loop (period selection, awaitUntilPrunable, pruneTries, status
+// sequencing) runs unchanged, only its two constants - the prune period (65536 / 8192) and the state history kept
+// for the EVM (thor.MaxStateHistory) - can be scaled so that a chain of a few hundred blocks exercises it.
+var verifPeriodOverride, verifHistoryOverride atomic.Uint32
+
+// VerifSetLoopScale sets the long period (the short one becomes an eighth of it, at least 1) and the history margin;
+// zero values restore the production constants.
+func VerifSetLoopScale(period, history uint32) {
+	verifPeriodOverride.Store(period)
+	verifHistoryOverride.Store(history)
+}
+
+func verifPeriod(period uint32) uint32 {
+	p := verifPeriodOverride.Load()
+	if p == 0 {
+		return period
+	}
+	if period == 65536 {
+		return p
+	}
+	return max(1, p/8)
+}
+
+// verifPrunableTarget: awaitUntilPrunable is called with target + thor.MaxStateHistory; replace the margin by the
+// scaled one.  A value below MaxStateHistory cannot contain the margin and is passed through.
+func verifPrunableTarget(target uint32) uint32 {
+	h := verifHistoryOverride.Load()
+	if verifPeriodOverride.Load() == 0 || target < thor.MaxStateHistory {
+		return target
+	}
+	return target - thor.MaxStateHistory + h
 }
